@@ -14,15 +14,15 @@ LEVEL = "exploration"
 BASELINE = "C12"
 REQUIRED_COUNTERS = ["scans", "documents_compared", "single_rule_scans"]
 ASSUMPTIONS = ["documents on which a scan ends in a tokenization or plugin error are skipped (C01/C07), counted"]
-LIMIT = {"Z1": 5097, "Z3": 6000, "Z4": 4000}
+LIMIT = {"Z1": 5097, "Z3": 5000, "Z4": 3000, "Z7": 8000}
 
 
 def universe_hash():
-    return U.content_hash()
+    return PL.hash_ab()
 
 
 def plan(tier, seed, complete=False):
-    items, zinfo = PL.plan_docs(tier, seed, complete, quick={"Z1": 350, "Z3": 250, "Z4": 150}, z1_all=False, limit=LIMIT, zones=("Z1", "Z3", "Z4"))
+    items, zinfo = PL.plan_docs(tier, seed, complete, quick={"Z1": 300, "Z3": 180, "Z4": 100, "Z7": 220}, z1_all=False, limit=LIMIT, zones=("Z1", "Z3", "Z4", "Z7"), force_b=True)
     return {
         "items": items, "zones": zinfo, "exhaustive": False,
         "rule": "documents of the frozen universes (raw corpus, prefixes of Z3/Z4) x {all rules, each rule alone, default set, default minus two index-chosen rules}; "
